@@ -86,9 +86,13 @@ impl Sim for GetRecordSim {
         let single = n_callers == 1;
         let mut steps = vec![];
         let mut calls_left = n_callers;
-        let call = |rng: &mut Rng, n_versions: u8, single: bool| Step::Call {
-            quorum: rng.below(4) as u8,
-            target: if rng.chance(1, 3) { Some(rng.below(n_versions as u64) as u8) } else { None },
+        // swarm knobs: callers of one run often share a quorum, and runs differ in how often callers
+        // expect a specific record (overlapping reads with equal quorum but different expectations)
+        let shared_quorum: Option<u8> = if rng.chance(1, 2) { Some(rng.below(4) as u8) } else { None };
+        let target_odds = *rng.pick(&[0u64, 1, 1, 2, 3]);
+        let call = move |rng: &mut Rng, n_versions: u8, single: bool| Step::Call {
+            quorum: shared_quorum.unwrap_or_else(|| rng.below(4) as u8),
+            target: if rng.chance(target_odds, 3) { Some(rng.below(n_versions as u64) as u8) } else { None },
             retry: single && rng.chance(1, 4),
         };
         // first caller
